@@ -343,6 +343,12 @@ def apply_replacements(body, repls, item):
             pat = re.compile(r"\s+".join(re.escape(tok) for tok in old.split()))
             ms = list(pat.finditer(body))
             if len(ms) != 1:
+                # comments are not code: the same tokens with comments added, removed or reworded still are the anchor
+                old_nc = re.sub(r"//[^\n]*", "", old)
+                gap = r"(?:\s|//[^\n]*(?:\n|$))+"
+                pat = re.compile(gap.join(re.escape(tok) for tok in old_nc.split()))
+                ms = list(pat.finditer(body))
+            if len(ms) != 1:
                 raise AnchorLost("%s: replace anchor found %d times: %r" % (item.ident, len(ms), old[:60]))
             body = body[:ms[0].start()] + new + body[ms[0].end():]
         else:
